@@ -387,3 +387,162 @@ def replay_move(vals, kind):
                 bad = [(b, o) for b in range(8) for o in range(0x4000) if got[b][o] != exp[b][o]][:4]
                 return {'case': {'move_spec': spec}, 'diffs': [('banks after move %s' % spec, bad, 'cells named by the spec')]}
     return {'case': {}, 'diffs': []}
+
+
+# ---------------------------------------------------------------------------------------------------------------------
+# snapshot.patch: the bytes of a file are stored at an address (64K view) or into a RAM bank (page prefix)
+class FileData:
+    """The list read_bin_file returns, or a prefix slice of it: only its length is tracked."""
+
+    def __init__(self, length, whole=True):
+        self.length = length
+        self.whole = whole
+
+
+class PatchEngine(MoveEngine):
+    def getitem(self, base, idx, node):
+        if isinstance(base, FileData):
+            lo, hi = None, None
+            if isinstance(idx, tuple) and idx and idx[0] == 'symslice' and idx[3] is None:
+                lo, hi = idx[1], idx[2]
+            elif isinstance(idx, slice) and idx.step is None:
+                lo, hi = idx.start, idx.stop
+            else:
+                raise poly.Refuse('file data indexed by %r' % (idx,))
+            if lo not in (None, 0):
+                raise poly.Refuse('file data sliced from a non-zero offset')
+            if hi is None:
+                return FileData(base.length, base.whole)
+            # data[:hi] for hi >= 0: the first min(hi, len) bytes
+            self.oblige('prefix_length_not_negative', cmpop('>=', hi, 0), node)
+            return FileData(ite(cmpop('<', hi, base.length), hi, base.length), False)
+        return super().getitem(base, idx, node)
+
+    def setitem(self, base, idx, v, node):
+        if isinstance(base, SymMem) and isinstance(v, FileData) and (isinstance(idx, slice) or (isinstance(idx, tuple) and idx and idx[0] == 'symslice')):
+            lo, hi = (idx.start, idx.stop) if isinstance(idx, slice) else (idx[1], idx[2])
+            self.path.stores.append((base, lo, hi, v))
+            return
+        return super().setitem(base, idx, v, node)
+
+    def sym_builtin(self, f, name, args, kwargs, node):
+        if name == 'len' and len(args) == 1 and isinstance(args[0], FileData):
+            return args[0].length
+        return super().sym_builtin(f, name, args, kwargs, node)
+
+    def call(self, f, args, kwargs, node):
+        if f is len and len(args) == 1 and isinstance(args[0], FileData):
+            return args[0].length
+        return super().call(f, args, kwargs, node)
+
+
+def check_patch(rep, prop='C09'):
+    """snapshot.patch(snapshot, '[P:]A,file') for symbolic page P, address A and file length L (0..0xC000):
+    with a page prefix exactly one store happens, into bank P % 8, at offset A % 0x4000, of the first
+    min(L, 0x4000 - A % 0x4000) bytes of the file, and the slice stored into has exactly that length (so the bank
+    keeps its 16384 cells) and ends inside the bank; without a prefix the whole file goes to [A, A + L) of the memory
+    object. get_int_param and read_bin_file are abstracted (the value the placeholder stands for; some list of at most
+    the requested number of bytes)."""
+    import skoolkit.snapshot as S
+    W = poly.W
+    for form, spec in (('no page', 'A,file'), ('page', 'P:A,file')):
+        name = 'skoolkit.snapshot.patch[%s]' % form
+
+        def start(eng, form=form, spec=spec):
+            p = eng.path
+            p.stores = []
+            p.P = SV(z3.BitVec('page', W), 0, 255)
+            p.A = SV(z3.BitVec('address', W), 0, 65535)
+            p.L = SV(z3.BitVec('file_length', W), 0, 0xC000)
+            for x in (p.P, p.A, p.L):
+                p.facts.append(z3.And(x.t >= x.lo, x.t <= x.hi))
+            vals = {'P': p.P, 'A': p.A}
+            eng.call_models[id(S.get_int_param)] = lambda e, a, k, n: vals[a[0]]
+            p.data = FileData(p.L)
+
+            def read(e, a, k, n):
+                e.oblige('file_read_is_capped', len(a) == 2 and a[0] == 'file' and isinstance(a[1], int) and a[1] <= 0xC000, n)
+                return p.data
+            eng.call_models[id(S.read_bin_file)] = read
+            if form == 'no page':
+                p.mem = SymMem('mem')
+                snapshot = p.mem
+            else:
+                p.banks = [SymMem('bank%d' % b, size=0x4000) for b in range(8)]
+                snapshot = ObjModel(None, name='memory')
+                snapshot.attrs['banks'] = SymList(list(p.banks), 'banks')
+            eng.call_function(S.patch, [snapshot, spec])
+
+        def post(p, prove, form=form):
+            prove('post.one_store', len(p.stores) == 1)
+            if len(p.stores) != 1:
+                return
+            dst, lo, hi, v = p.stores[0]
+            if form == 'no page':
+                prove('post.object', dst is p.mem)
+                prove('post.whole_file', v is p.data)
+                prove('post.range', and_(cmpop('==', lo, p.A), cmpop('==', hi, p.A + p.L)))
+                return
+            bi = p.banks.index(dst) if dst in p.banks else None
+            prove('post.object_is_a_bank', bi is not None)
+            if bi is None:
+                return
+            off = p.A % 0x4000
+            fits = 0x4000 - off
+            prove('post.bank', cmpop('==', p.P % 8, bi))
+            prove('post.offset', cmpop('==', lo, off))
+            prove('post.ends_inside_the_bank', cmpop('<=', hi, 0x4000))
+            prove('post.as_much_as_fits', cmpop('==', v.length, ite(cmpop('<', p.L, fits), p.L, fits)))
+            prove('post.bank_keeps_its_length', cmpop('==', hi - lo, v.length))
+        eng = PatchEngine(inline_ok=lambda f: f.__module__ == 'skoolkit.snapshot' and f.__name__ == '_get_page', unknown_ok=True)
+        FuncVC(rep, prop, S.patch, name, eng).run(start, post, replay_patch)
+    rep.assume('patch: a slice store of n values into an n-cell slice of a list replaces those cells and nothing else (list semantics); Memory.__setitem__ (64K view, no page prefix) is exercised in the bounded runs only; get_int_param and read_bin_file abstracted')
+
+
+def replay_patch(vals, kind):
+    """Concrete search on a 128K memory: the counterexample first, then patches around the end of a bank."""
+    import os
+    import tempfile
+    import skoolkit.snapshot as S
+    rnd = random.Random(5)
+    tmp = tempfile.mkdtemp(prefix='c09patch_')
+    try:
+        fn = os.path.join(tmp, 'p.bin')
+        for t in range(300):
+            if t == 0 and vals:
+                P, A, L = vals.get('page', 3), vals.get('address', 0x3FFC), vals.get('file_length', 8)
+            else:
+                P, L = rnd.randrange(10), rnd.choice((0, 1, 5, 40, 0x4000, 0x4001))
+                A = rnd.choice((rnd.randrange(65536), 0x4000 * rnd.randrange(1, 5) - rnd.randrange(0, 8)))
+            A, L = A % 65536, max(0, min(L, 0xC000))
+            data = [rnd.randrange(1, 256) for _ in range(L)]
+            with open(fn, 'wb') as f:
+                f.write(bytes(data))
+            for paged in (True, False):
+                m = S.Memory(snapshot=[0] * 0x20000, page=rnd.randrange(8))
+                exp = [list(b) for b in m.banks]
+                if paged:
+                    spec = '%d:%d,%s' % (P, A, fn)
+                    off = A % 0x4000
+                    k = min(L, 0x4000 - off)
+                    exp[P % 8][off:off + k] = data[:k]
+                else:
+                    if A + L > 65536:
+                        continue
+                    spec = '%d,%s' % (A, fn)
+                    slot = {0: None, 1: 5, 2: 2, 3: [i for i in range(8) if m.memory[3] is m.banks[i]][0]}
+                    for i, b in enumerate(data):
+                        sb = slot[(A + i) >> 14]
+                        if sb is not None:
+                            exp[sb][(A + i) & 0x3FFF] = b
+                S.patch(m, spec)
+                got = [list(b) for b in m.banks]
+                if got != exp:
+                    lens = [len(b) for b in got]
+                    bad = [(b, o) for b in range(8) for o in range(min(len(got[b]), 0x4000)) if got[b][o] != exp[b][o]][:4]
+                    return {'case': {'patch_spec': spec.replace(fn, '<file of %d bytes>' % L), 'page': P, 'address': A, 'file_length': L},
+                            'diffs': [('banks after patch', {'bank lengths': lens, 'cells': bad}, 'every bank 16384 cells; only the cells named by the spec change')]}
+    finally:
+        import shutil
+        shutil.rmtree(tmp, ignore_errors=True)
+    return {'case': {}, 'diffs': []}
